@@ -1,11 +1,13 @@
 // Harness for C18: runs every method of the real ociclient against a scripted
 // http.RoundTripper (arbitrary statuses, absent / empty / malformed / contradictory headers,
 // empty / truncated / garbage / oversized bodies, sequences for the multi-request operations,
-// page sizes <= 0) under recover with a watchdog, and writes what it saw together with the
+// page sizes <= 0) under recover with a watchdog, in a worker process whose death on a case is a
+// panic of that case (see "isolation"), and writes what it saw together with the
 // values the Go library functions the model treats as oracles take on the strings of the case.
 package main
 
 import (
+	"bufio"
 	"bytes"
 	"context"
 	"encoding/json"
@@ -18,8 +20,10 @@ import (
 	"net/http"
 	"net/url"
 	"os"
+	"os/exec"
 	"sort"
 	"strings"
+	"sync"
 	"time"
 
 	"github.com/opencontainers/go-digest"
@@ -375,7 +379,7 @@ func execute(c ociregistry.Interface, cl Call, toks *[]Tok) {
 
 const host = "registry.example"
 
-func runCase(in Input) Observed {
+func runCaseLocal(in Input) Observed {
 	tr := &transport{script: in.Script}
 	c, err := ociclient.New(host, &ociclient.Options{Transport: tr, ListPageSize: in.Page})
 	if err != nil {
@@ -407,6 +411,167 @@ func runCase(in Input) Observed {
 		}
 	}
 	return Observed{Toks: toks, Reqs: tr.reqs, Reads: reads, PanicVal: pval}
+}
+
+// ---------------------------------------------------------------- isolation
+//
+// recover() does not catch everything a client operation can do to the process: an absurd
+// allocation ("fatal error: runtime: out of memory"), unbounded recursion (stack overflow),
+// a concurrent map write or a deadlock kill the whole program.  The cases are therefore run in
+// a worker process (this binary again, with workerEnv set) that answers one case per line; when
+// the worker dies on a case, that case is recorded as a panic with what the runtime wrote, the
+// worker is started again and the exploration goes on.
+
+const workerEnv = "C18_WORKER"
+
+func workerMain() {
+	rd := bufio.NewReaderSize(os.Stdin, 1<<20)
+	wr := bufio.NewWriter(os.Stdout)
+	for {
+		line, err := rd.ReadBytes('\n')
+		if len(bytes.TrimSpace(line)) > 0 {
+			var in Input
+			if e := json.Unmarshal(line, &in); e != nil {
+				fmt.Fprintln(os.Stderr, "worker: bad input:", e)
+				os.Exit(3)
+			}
+			js, e := json.Marshal(runCaseLocal(in))
+			if e != nil {
+				fmt.Fprintln(os.Stderr, "worker: cannot encode:", e)
+				os.Exit(3)
+			}
+			wr.Write(js)
+			wr.WriteByte('\n')
+			wr.Flush()
+		}
+		if err != nil {
+			return
+		}
+	}
+}
+
+// tail keeps the first 2 KiB of what the worker writes to stderr (the runtime's
+// "fatal error: ..." line comes first)
+type tail struct {
+	mu  sync.Mutex
+	buf []byte
+}
+
+func (t *tail) Write(p []byte) (int, error) {
+	t.mu.Lock()
+	if room := 2048 - len(t.buf); room > 0 {
+		if len(p) < room {
+			room = len(p)
+		}
+		t.buf = append(t.buf, p[:room]...)
+	}
+	t.mu.Unlock()
+	return len(p), nil
+}
+
+func (t *tail) String() string {
+	t.mu.Lock()
+	defer t.mu.Unlock()
+	return string(t.buf)
+}
+
+type worker struct {
+	cmd   *exec.Cmd
+	in    io.WriteCloser
+	lines chan []byte
+	errs  *tail
+}
+
+var (
+	theWorker    *worker
+	workerDeaths int
+)
+
+func startWorker() *worker {
+	exe, err := os.Executable()
+	if err != nil {
+		panic(err)
+	}
+	cmd := exec.Command(exe)
+	cmd.Env = append(os.Environ(), workerEnv+"=1")
+	in, err := cmd.StdinPipe()
+	if err != nil {
+		panic(err)
+	}
+	out, err := cmd.StdoutPipe()
+	if err != nil {
+		panic(err)
+	}
+	w := &worker{cmd: cmd, in: in, lines: make(chan []byte, 1), errs: &tail{}}
+	cmd.Stderr = w.errs
+	if err := cmd.Start(); err != nil {
+		panic(err)
+	}
+	go func() {
+		rd := bufio.NewReaderSize(out, 1<<20)
+		for {
+			line, err := rd.ReadBytes('\n')
+			if err != nil {
+				close(w.lines)
+				return
+			}
+			w.lines <- line
+		}
+	}()
+	return w
+}
+
+func (w *worker) stop() {
+	w.in.Close()
+	w.cmd.Process.Kill()
+	w.cmd.Wait()
+}
+
+func stopWorker() {
+	if theWorker != nil {
+		theWorker.stop()
+		theWorker = nil
+	}
+}
+
+func runCase(in Input) Observed {
+	if theWorker == nil {
+		theWorker = startWorker()
+	}
+	w := theWorker
+	js, err := json.Marshal(in)
+	if err != nil {
+		panic(err)
+	}
+	w.in.Write(append(js, '\n'))
+	select {
+	case line, ok := <-w.lines:
+		if ok {
+			var ob Observed
+			if err := json.Unmarshal(line, &ob); err != nil {
+				panic(err)
+			}
+			for _, t := range ob.Toks {
+				if t.K == "hang" {
+					stopWorker() // a goroutine is still spinning in there
+					break
+				}
+			}
+			return ob
+		}
+		// the worker died on this case
+		werr := w.cmd.Wait()
+		theWorker = nil
+		workerDeaths++
+		msg := strings.TrimSpace(w.errs.String())
+		if i := strings.Index(msg, "\n\n"); i >= 0 {
+			msg = msg[:i]
+		}
+		return Observed{Toks: []Tok{{K: "panic"}}, PanicVal: fmt.Sprintf("process died (%v): %s", werr, msg)}
+	case <-time.After(40 * time.Second):
+		stopWorker()
+		return Observed{Toks: []Tok{{K: "hang"}}, PanicVal: "worker did not answer"}
+	}
 }
 
 // ---------------------------------------------------------------- oracles and the Coq term
@@ -828,22 +993,58 @@ var errorBodies = []Item{
 	{Status: 404, Header: hdr("Content-Type", "application/json"), CLen: -1, Body: []byte(`{"errors":[{"code":5}]}`)},
 	{Status: 404, Header: hdr("Content-Type", "application/json", "Content-Type", "text/plain"), CLen: -1, Body: []byte(`{"errors":[{"code":"MANIFEST_UNKNOWN","message":"m"}]}`)},
 	{Status: 404, Header: hdr("Content-Type", "application/x+json+y"), CLen: -1, Body: []byte(`{"errors":[{"code":"CUSTOM_CODE","message":"m"}]}`)},
+	{Status: 404, Header: hdr("Content-Type", "application/json"), CLen: math.MaxInt64, Body: []byte(`{"errors":[{"code":"NAME_UNKNOWN","message":"m"}]}`)},
+	{Status: 500, Header: hdr("Content-Type", "text/plain"), CLen: 1 << 40, Body: []byte(`oops`)},
+	{Status: 403, Header: hdr("Content-Type", "application/json"), CLen: math.MinInt64, Body: []byte(`{"errors":[{"code":"DENIED","message":"m"}]}`)},
+	{Status: 503, CLen: 1 << 62, Body: nil},
 }
 
-var locations = []string{"", locOK, "https://other.example/up?x=1", "relative/path", "?q=1", "%zz", "http://[::1", ":bad", "mailto:x", "/a b", "//host/p?", "/p?digest=x"}
-var ranges = []string{"", "0-9", "0-0", "5-9", "0-", "-5", "0--5", "bytes=0-9", "0-9223372036854775807", "0-9223372036854775806", "0-99999999999999999999", "a-b", "0-9-3", "+0-+9", "0-1_0", "00-09", " 0-9"}
-var links = []string{"", `</v2/_catalog?n=2&last=b>; rel="next"`, "<next", "nobracket", "<>", "<%zz>", "<http://[::1>", "</v2/x>", "<?n=1>", "< >"}
-var chunkMins = []string{"", "10", "0", "-5", "abc", "9223372036854775807", "9223372036854775808", "99999999999999999999", "1_000", "+7", " 7", "7 ", "0x10", "100000"}
-var contentTypes = []string{"", "application/json", "application/vnd.oci.image.manifest.v1+json", "text/plain", "garbage;;;", "application/", "a/b; x=\"", "APPLICATION/JSON"}
-var contentRanges = []string{"", "bytes 0-4/5", "0-4/5", "bytes 0-4", "bytes 0-4/", "bytes 0-4/x", "bytes 0-4/-5", "bytes 0-4/99999999999999999999", "/", "bytes */5", "bytes 0-4/5/6", "bytes 0-4/+5", "bytes 0-4/ 5", "bytes 0-4/9223372036854775807"}
+var locations = []string{"", locOK, "https://other.example/up?x=1", "relative/path", "?q=1", "%zz", "http://[::1", ":bad", "mailto:x", "/a b", "//host/p?", "/p?digest=x", " ", "\t"}
+var ranges = []string{"", "0-9", "0-0", "5-9", "0-", "-5", "0--5", "bytes=0-9", "0-9223372036854775807", "0-9223372036854775806", "0-99999999999999999999", "a-b", "0-9-3", "+0-+9", "0-1_0", "00-09", " 0-9", " ", "\t"}
+var links = []string{"", `</v2/_catalog?n=2&last=b>; rel="next"`, "<next", "nobracket", "<>", "<%zz>", "<http://[::1>", "</v2/x>", "<?n=1>", "< >", " ", "\t", " <", "<\t>; rel=\"next\""}
+var chunkMins = []string{"", "10", "0", "-5", "abc", "9223372036854775807", "9223372036854775808", "99999999999999999999", "1_000", "+7", " 7", "7 ", "0x10", "100000", " ", "\t"}
+var contentTypes = []string{"", "application/json", "application/vnd.oci.image.manifest.v1+json", "text/plain", "garbage;;;", "application/", "a/b; x=\"", "APPLICATION/JSON", " ", "\t", " application/json ", ";", "/"}
+var contentRanges = []string{"", "bytes 0-4/5", "0-4/5", "bytes 0-4", "bytes 0-4/", "bytes 0-4/x", "bytes 0-4/-5", "bytes 0-4/99999999999999999999", "/", "bytes */5", "bytes 0-4/5/6", "bytes 0-4/+5", "bytes 0-4/ 5", "bytes 0-4/9223372036854775807", " ", "\t", "bytes ", "bytes -/"}
 
 func digests(body []byte) []string {
 	return []string{"", dig256(body), digOK, string(digest.SHA512.FromBytes(body)), string(digest.SHA384.FromBytes(body)),
-		"sha256:abc", "md5:d41d8cd98f00b204e9800998ecf8427e", "nocolon", ":abc", "sha256:" + strings.Repeat("g", 64), "sha256:" + strings.ToUpper(hexA), "sha999:" + hexA}
+		"sha256:abc", "md5:d41d8cd98f00b204e9800998ecf8427e", "nocolon", ":abc", "sha256:" + strings.Repeat("g", 64), "sha256:" + strings.ToUpper(hexA), "sha999:" + hexA, " ", "\t", ":", " :" + hexA, "sha256: "}
 }
 
 func clens(n int) []int64 {
-	return []int64{int64(n), -1, 0, int64(n) + 10, int64(n) - 1, 131072, 131073, 1 << 40, math.MaxInt64, -2}
+	return []int64{int64(n), -1, 0, int64(n) + 10, int64(n) - 1, 131072, 131073, 1 << 40, math.MaxInt64, -2,
+		math.MaxInt64 - 1, 1 << 62, math.MinInt64, math.MaxInt32, math.MaxInt32 + 1}
+}
+
+// the declared lengths no honest server sends: what a client that trusts Content-Length
+// (allocates, slices or loops by it) trips over
+var absurdCLens = []int64{1 << 40, math.MaxInt64, math.MaxInt64 - 1, 1 << 62, math.MinInt64, -2}
+
+// bodies that are nothing but white space, or white space and then something: every decoder
+// that trims before it looks (TrimSpace(b)[0], Fields(b)[0], b[len(b)-1]) meets its empty case here
+var blankPrefixes = []string{"\n", "\r\n", " ", "\t", " \r\n\t \n", "\u00a0\u0085", "\v\f"}
+
+// Content-Type absent, not JSON, JSON
+var blankCTypes = []string{"", "text/plain", "application/json"}
+
+func blankBodies(doc []byte) [][]byte {
+	var out [][]byte
+	for _, p := range blankPrefixes {
+		out = append(out, []byte(p))
+	}
+	return append(out, []byte("\n\x00garbage\xff"), []byte(" \t{"), []byte("{ \n"),
+		append([]byte(" \r\n"), doc...), append(append([]byte("\n"), doc...), " \n"...))
+}
+
+var stdError = []byte(`{"errors":[{"code":"DENIED","message":"m"}]}`)
+
+var blankStatuses = []int{502, 404, 400, 500, 301, 0, 99, 600, 307, 416, 401, 299 + 1}
+
+func withCType(h [][2]string, ct string) [][2]string {
+	if ct == "" {
+		return with(h, "Content-Type")
+	}
+	return with(h, "Content-Type", ct)
 }
 
 type gen struct {
@@ -864,7 +1065,8 @@ type pending struct {
 func (g *gen) add(in Input, origin string) {
 	// a hung call leaves a spinning goroutine behind and costs a watchdog period: after three of
 	// them the run stops exploring and reports what it has (each hang is a violating case)
-	if g.hangs >= 3 {
+	// (the same for cases that kill the worker process: each is a violating case)
+	if g.hangs >= 3 || workerDeaths >= 20 {
 		return
 	}
 	if in.Call.BufSz == 0 {
@@ -1125,6 +1327,14 @@ var listBodies = [][]byte{
 	[]byte(`{"manifests":[{"digest":"` + digOK + `","size":1},{"digest":"` + digOK + `","size":2,"artifactType":"a"}]}`),
 }
 
+func pageDoc(op string, items []string) []byte {
+	js, _ := json.Marshal(items)
+	if op == "Tags" {
+		return []byte(`{"name":"foo/bar","tags":` + string(js) + `}`)
+	}
+	return []byte(`{"repositories":` + string(js) + `}`)
+}
+
 func (g *gen) enumerate() {
 	// 0. the good scripts, for every page size
 	for _, cl := range baseCalls {
@@ -1207,6 +1417,66 @@ func (g *gen) enumerate() {
 				g.add(Input{Call: cl, Script: s}, "body")
 			}
 		}
+	}
+	// 2b. blank and blank-prefixed bodies under every Content-Type: as the error answer at every
+	// step (statuses rotate over the non-2xx kinds, declared lengths over right / unknown / absurd),
+	// and as the body of the successful answer of every step
+	for _, cl := range baseCalls {
+		good := goodScript(cl)
+		for step := range good {
+			k := 0
+			for _, ct := range blankCTypes {
+				for _, b := range blankBodies(stdError) {
+					st := blankStatuses[k%len(blankStatuses)]
+					e := Item{Status: st, Header: withCType(nil, ct), CLen: []int64{-1, int64(len(b)), math.MaxInt64, 0}[k%4], Body: b}
+					if st >= 300 && st < 400 && k%2 == 0 {
+						e.Header = with(e.Header, "Location", "/elsewhere")
+					}
+					k++
+					s := cloneScript(good)
+					s[step] = e
+					s = append(s, good[step:]...)
+					g.add(Input{Call: cl, Script: s}, "blank-error-body")
+				}
+			}
+			doc := good[step].Body
+			if len(doc) == 0 {
+				doc = []byte(`{}`)
+			}
+			for _, ct := range blankCTypes {
+				for i, b := range blankBodies(doc) {
+					s := cloneScript(good)
+					s[step].Header = withCType(good[step].Header, ct)
+					s[step].Body, s[step].Pad = b, 0
+					s[step].CLen = int64(len(b))
+					if isListing(cl.Op) && i%2 == 1 {
+						s[step].CLen = -1
+					}
+					g.add(Input{Call: cl, Script: s}, "blank-body")
+				}
+			}
+		}
+	}
+	// 2c. absurd declared lengths on the later successful answers of multi-answer operations:
+	// each page of a listing, the HEAD answer of a large tag read
+	for _, op := range []string{"Repositories", "Tags"} {
+		for at := 0; at < 3; at++ {
+			for _, n := range absurdCLens {
+				s := []Item{
+					{Status: 200, Header: hdr("Content-Type", "application/json"), CLen: -1, Body: pageDoc(op, []string{"a", "b"})},
+					{Status: 200, Header: hdr("Content-Type", "application/json"), CLen: -1, Body: pageDoc(op, []string{"c", "d"})},
+					{Status: 200, Header: hdr("Content-Type", "application/json"), CLen: -1, Body: pageDoc(op, []string{"e"})},
+				}
+				s[at].CLen = n
+				g.add(Input{Page: 2, Call: Call{Op: op, Repo: repoOK, Budget: -1}, Script: s}, "content-length-later")
+			}
+		}
+	}
+	for _, n := range absurdCLens {
+		big := Item{Status: 200, CLen: 131073, Body: []byte(`{"big":"`), Pad: 131073 - 8}
+		g.add(Input{Call: Call{Op: "GetTag", Repo: repoOK, Tag: tagOK, BufSz: 32768}, Script: []Item{big, {Status: 200, Header: hdr("Docker-Content-Digest", dig256(big.data())), CLen: n}}}, "content-length-later")
+		small := Item{Status: 200, CLen: n, Body: []byte(`{"schemaVersion":2}`)}
+		g.add(Input{Call: Call{Op: "GetTag", Repo: repoOK, Tag: tagOK}, Script: []Item{small, {Status: 200, Header: hdr("Docker-Content-Digest", dig256(small.Body)), CLen: n}}}, "content-length-later")
 	}
 	// 3. partial content
 	for _, cr := range contentRanges {
@@ -1482,13 +1752,27 @@ func (g *gen) randomItem(cl Call) Item {
 	}
 	switch r.Intn(10) {
 	case 0:
-		it.CLen = clens(len(it.data()))[r.Intn(10)]
+		cs := clens(len(it.data()))
+		it.CLen = cs[r.Intn(len(cs))]
 	case 1:
 		it.BodyFail = true
 	case 2:
 		it.Body = nil
 	case 3:
 		it.Pad = []int{1, 2040, 2048, 2049, 8192, 8193, 9000}[r.Intn(7)]
+	case 4:
+		doc := it.Body
+		if r.Intn(2) == 0 {
+			doc = stdError
+		}
+		bs := blankBodies(doc)
+		it.Body, it.Pad = bs[r.Intn(len(bs))], 0
+		if r.Intn(2) == 0 {
+			it.Header = withCType(it.Header, blankCTypes[r.Intn(len(blankCTypes))])
+		}
+		if r.Intn(2) == 0 {
+			it.Status = blankStatuses[r.Intn(len(blankStatuses))]
+		}
 	}
 	return it
 }
@@ -1536,6 +1820,11 @@ func (g *gen) random(n int) {
 }
 
 func main() {
+	if os.Getenv(workerEnv) != "" {
+		workerMain()
+		return
+	}
+	defer stopWorker()
 	cfg := hx.ParseFlags()
 	out := hx.NewOut(cfg, "Obs.C18")
 	g := &gen{out: out, rnd: cfg.Rand(), seen: map[string]bool{}}
